@@ -2,6 +2,11 @@
 """Prints the markdown table of seeded changes and the outcome of the checks on each (from seeded/*/meta.json)."""
 import glob, json, os
 V = os.path.dirname(os.path.dirname(os.path.abspath(__file__)))
+import io, sys
+_out = io.StringIO()
+_p = print
+def print(*a):
+    _p(*a, file=_out)
 print('| seed | property | change (needs) | outcome of `./check` on the changed tree |')
 print('|---|---|---|---|')
 for d in sorted(glob.glob(os.path.join(V, 'seeded', '*'))):
@@ -19,3 +24,13 @@ for d in sorted(glob.glob(os.path.join(V, 'seeded', '*'))):
             res.append('%s: not detected (exit 0)' % p)
     summ = m['summary'].split('. ')[0][:150]
     print('| %s | %s | %s | %s |' % (os.path.basename(d), m['property'], summ.replace('|', '/'), '; '.join(res) or 'not run'))
+
+txt = _out.getvalue()
+if '--inject' in sys.argv:
+    import re
+    dp = os.path.join(V, 'DESIGN.md')
+    d = open(dp).read()
+    d = re.sub(r'<!-- seedtable -->.*?<!-- /seedtable -->', lambda m: '<!-- seedtable -->\n' + txt + '<!-- /seedtable -->', d, flags=re.S)
+    open(dp, 'w').write(d)
+else:
+    sys.stdout.write(txt)
